@@ -64,3 +64,5 @@ e('nan-path-keeps-previous', WD, [('            self.outside_number(&token);\n  
 e('fr-annotate-truncate-noop', FR, [('        let mut b = DigitString::new();\n        let mut true_words: Vec<usize> = Vec::with_capacity(tokens.len());', '        let mut b = DigitString::new();\n        tokens.truncate(usize::MAX);\n        let mut true_words: Vec<usize> = Vec::with_capacity(tokens.len());', 1)])
 # an arm after the macro expansion that can never be reached (flagged by the former shape rule C-DELEGATION)
 e('facade-unreachable-arm', LM, [('                    Language::$variant(l) => l.apply(num_func, b),\n                )*', '                    Language::$variant(l) => l.apply(num_func, b),\n                )*\n                #[allow(unreachable_patterns)]\n                Language::Dutch(_) => German::default().apply(num_func, b),', 1)])
+# an extra interpretation of the word on a scratch builder whose result is dropped: no observable effect
+e('outside-number-extra-apply', WD, [('        let text = token.text();\n        if !(', '        let text = token.text();\n        let _ = self.lang.apply(token.text_lowercase(), &mut DigitString::new());\n        if !(', 1)])
